@@ -337,7 +337,8 @@ def r3(ctx, chk):
            "zone argument defs: %s" % zdefs, key={"function": f.key, "construct": "fromtimestamp zone"}, file=f.file,
            function=f.qual, line=f.node.lineno)
     import re as _re
-    ok = _re.search(r"(\w+) = apply_timezone_from_settings\(\1, settings\)", " ".join(t.split())) is not None
+    ok = _re.search(r"(\w+) = apply_timezone_from_settings\(\1, settings\)", " ".join(t.split())) is not None \
+        or _re.search(r"return apply_timezone_from_settings\(\w+, settings\)", " ".join(t.split())) is not None
     chk.ob(rule, "timestamp: result goes through apply_timezone_from_settings", ok, "",
            key={"function": f.key, "construct": "helper call"}, file=f.file, function=f.qual, line=f.node.lineno)
     pf = ctx.ix.func("dateparser.date:parse_with_formats")
